@@ -215,7 +215,18 @@ def run(chk):
                 chk.violation("C11.rsv", call, K.short(call, 70), f"rsv={rv} compressed={from_compressor}", f"{fn.name}: RSV1 does not tell the truth about the payload (reader inflates raw data or delivers deflate bytes)")
     chk.expect_count("C11.rsv", nw, 3, "_write_websocket_frame call sites")
     # control opcodes never compressed
-    comp_calls = [c for c, _b in K.exprs(sf, "self._send_compressed_frame_sync(...)")] + [c for c, _b in K.exprs(sf, "self._send_compressed_frame_async_locked(...)")]
+    compressed = {fn.name for fn in wc.methods.values() for call, _b in K.exprs(fn, "self._write_websocket_frame($P, $O, $R)")
+                  if "compressobj.compress" in norm.raw(call.args[0]) or "compressobj.flush" in norm.raw(call.args[0])} - {"send_frame"}
+    grew = True
+    while grew:
+        grew = False
+        for fn in wc.methods.values():
+            if fn.name in compressed or fn.name == "send_frame":
+                continue
+            if any((t := prog.resolve_call(repo, c)) is not None and t.cls is fn.cls and t.name in compressed for c in prog.calls_in(fn.node)):
+                compressed.add(fn.name)
+                grew = True
+    comp_calls = [c for c in prog.calls_in(sf.node) if (t := prog.resolve_call(repo, c)) is not None and t.cls is sf.cls and t.name in compressed]
     if len(comp_calls) < 2:
         chk.analysis_error("C11.rsv: compressed send paths not found in send_frame")
     for c in comp_calls:
